@@ -119,3 +119,21 @@ Print Assumptions C03_cfg_key_in_config_refuted.
 Theorem C03_nested_key_on_any_print_config_refuted : finding_status 16 wit_finding_16.
 Proof. exact finding_16_status. Qed.
 Print Assumptions C03_nested_key_on_any_print_config_refuted.
+Theorem C03_nargs_choices_scalar_refuted : finding_status 17 wit_finding_17.
+Proof. exact finding_17_status. Qed.
+Print Assumptions C03_nargs_choices_scalar_refuted.
+Theorem C03_deep_nesting_recursion_refuted : finding_status 18 wit_finding_18.
+Proof. exact finding_18_status. Qed.
+Print Assumptions C03_deep_nesting_recursion_refuted.
+Theorem C03_closed_stdin_dash_refuted : finding_status 19 wit_finding_19.
+Proof. exact finding_19_status. Qed.
+Print Assumptions C03_closed_stdin_dash_refuted.
+Theorem C03_subcommand_value_not_mapping_refuted : finding_status 20 wit_finding_20.
+Proof. exact finding_20_status. Qed.
+Print Assumptions C03_subcommand_value_not_mapping_refuted.
+Theorem C03_any_class_path_override_refuted : finding_status 21 wit_finding_21.
+Proof. exact finding_21_status. Qed.
+Print Assumptions C03_any_class_path_override_refuted.
+Theorem C03_print_config_value_empty_refuted : finding_status 22 wit_finding_22.
+Proof. exact finding_22_status. Qed.
+Print Assumptions C03_print_config_value_empty_refuted.
